@@ -156,7 +156,7 @@ func receivers(data []byte) []date.Date {
 	}
 	y := int64(int32(uint32(data[1])<<24 | uint32(data[2])<<16 | uint32(data[3])<<8 | uint32(data[4])))
 	m, d := int(data[5]), int(data[6])
-	for _, yy := range []int64{y, 2000, y + 1, y - 1, y/4*4} {
+	for _, yy := range []int64{y, 2000, y + 1, y - 1, y / 4 * 4} {
 		if yy >= -999999999 && yy <= 999999999 && ref.ValidYMD(yy, m, d) {
 			out = append(out, date.New(int(yy), date.Month(m), d))
 		}
@@ -339,6 +339,33 @@ func TestCheck(t *testing.T) {
 	})
 
 	nRand := int64(r.Pick(3000000, 40000000))
+	// Phase C4: years on a ladder: +-(2^k - 1, 2^k, 2^k + 1) for k = 0..29 and +-999,999,999: every month end, the 29th-31st of every
+	// month and the first of the month, as bytes (validity) and as dates (round trip).
+	r.Phase("C4: years +-(2^k - 1, 2^k, 2^k + 1), k = 0..29, and +-999,999,999: days 1, 28-32 of months 0-13 as bytes; every real one also as a date", func() {
+		var ys []int64
+		for k := uint(0); k < 30; k++ {
+			for _, dlt := range []int64{-1, 0, 1} {
+				ys = append(ys, 1<<k+dlt, -(1<<k + dlt))
+			}
+		}
+		ys = append(ys, 999999999, -999999999, 999999998, -999999998)
+		r.Parallel(int64(len(ys)), 4, func(w *vkit.W, lo, hi int64) {
+			for i := lo; i < hi; i++ {
+				y := ys[i]
+				for m := 0; m <= 13; m++ {
+					for _, d := range []int{0, 1, 15, 28, 29, 30, 31, 32} {
+						judge(Case{Kind: "bytes", Data: vkit.B(encode(y, m, d))}, w)
+						w.EvalRandom(vkit.HashU(uint64(y), uint64(m*64+d), 41), true)
+						if ref.ValidYMD(y, m, d) {
+							judge(Case{Kind: "date", Y: y, M: m, D: d}, w)
+							w.EvalRandom(vkit.HashU(uint64(y), uint64(m*64+d), 42), true)
+						}
+					}
+				}
+			}
+		})
+	})
+
 	r.Phase(fmt.Sprintf("D: %d seeded random dates out to +-999,999,999 and random 7-byte bodies", nRand), func() {
 		r.Parallel(nRand, 4096, func(w *vkit.W, a, b int64) {
 			for i := a; i < b; i++ {
